@@ -1880,6 +1880,28 @@ impl Db {
 		self.inner.clean_logs()?;
 		Ok(())
 	}
+
+	/// Verification hook: id of the last log record applied to the tables (after `open`:
+	/// the last record accepted by log replay, or the value replay started from).
+	#[cfg(pdb_verif)]
+	pub fn verif_last_enacted(&self) -> u64 {
+		self.inner.last_enacted.load(Ordering::SeqCst)
+	}
+
+	/// Verification hook: the table configuration the log validators consult, in the syntax of
+	/// the log model: `<1 if db version <= 4 else 0>{/b | /h,<index bits>,<rc bits|->,<queue>}`.
+	#[cfg(pdb_verif)]
+	pub fn verif_table_cfg(&self) -> String {
+		let mut s = String::from(if self.inner.db_version <= 4 { "1" } else { "0" });
+		for c in self.inner.columns.iter() {
+			s.push('/');
+			match c {
+				Column::Hash(h) => s.push_str(&h.verif_table_cfg()),
+				Column::Tree(_) => s.push('b'),
+			}
+		}
+		s
+	}
 }
 
 impl Drop for Db {
